@@ -374,7 +374,7 @@ Proof.
     apply andb_true_iff in Hc. destruct Hc as [Hc H5]. apply andb_true_iff in Hc. destruct Hc as [Hc H4].
     apply andb_true_iff in Hc. destruct Hc as [Hc H3]. apply andb_true_iff in Hc. destruct Hc as [H1 H2].
     apply P_for; [apply core_x_headdecls; exact H1|apply core_x_headdecls; exact H2| |apply (proj1 IHp1); exact H1|apply (proj1 IHp2); exact H2|apply (proj1 IHp3); exact H3].
-    intros x Hx. apply (disjointb_spec _ _ H4). apply lexdecls_allnames. exact Hx.
+    intros x Hx. apply (disjointb_spec _ _ H4). exact Hx.
   - (* Catch *)
     apply andb_true_iff in Hc. destruct Hc as [Hc H4]. apply andb_true_iff in Hc. destruct Hc as [Hc H3].
     apply andb_true_iff in Hc. destruct Hc as [H1 H2].
